@@ -54,10 +54,6 @@ type cssObs struct {
 	nonPrintableURL bool
 }
 
-func refHexDigit(b byte) bool {
-	return refDigit(b) || ('a' <= b && b <= 'f') || ('A' <= b && b <= 'F')
-}
-
 func cssNewline(b byte) bool { return b == '\n' || b == '\r' || b == '\f' }
 func cssWS(b byte) bool      { return b == ' ' || b == '\t' || cssNewline(b) }
 func cssNameStart(b byte) bool {
